@@ -4,6 +4,8 @@ import (
 	"go/ast"
 	"go/constant"
 	"go/token"
+	"go/types"
+	"golang.org/x/tools/go/packages"
 	"strings"
 
 	"golang.org/x/tools/go/ssa"
@@ -21,26 +23,23 @@ func compileOrderRule(R string) RuleFunc {
 			c.Unresolved(R, "(*notations/jschema.JSchema).Compile")
 			return
 		}
-		var lit *ast.FuncLit
+		var body *ast.BlockStmt
+		bpk := d.Pkg
 		ast.Inspect(d.Decl.Body, func(n ast.Node) bool {
 			if call, ok := n.(*ast.CallExpr); ok && strings.HasSuffix(core.ExprStr(call.Fun), "CompileOnce.Do") && len(call.Args) == 1 {
-				if fl, ok := call.Args[0].(*ast.FuncLit); ok {
-					lit = fl
-				}
+				body, bpk = onceBody(c, d.Pkg, call.Args[0])
 			}
 			return true
 		})
-		if lit == nil {
-			c.Bad(R, "Compile:closure", c.P.Pos(d.Decl.Pos()), "closure of CompileOnce.Do", "undecided: no function literal handed to CompileOnce.Do")
+		if body == nil {
+			c.Bad(R, "Compile:closure", c.P.Pos(d.Decl.Pos()), "function handed to CompileOnce.Do", "undecided: neither a function literal, a literal that only calls one method, nor a method value")
 			return
 		}
-		pos := c.P.Pos(lit.Pos())
+		pos := c.P.Pos(body.Pos())
 		order := []string{"load", "CompileAllOf", "AddUnnamedTypes", "CheckRootSchema", "CheckRecursion"}
 		at := map[string]token.Pos{}
-		recoverInside := false
-		ast.Inspect(lit.Body, func(n ast.Node) bool {
-			switch x := n.(type) {
-			case *ast.CallExpr:
+		ast.Inspect(body, func(n ast.Node) bool {
+			if x, ok := n.(*ast.CallExpr); ok {
 				f := core.ExprStr(x.Fun)
 				for _, o := range order {
 					if strings.HasSuffix(f, "."+o) {
@@ -49,16 +48,10 @@ func compileOrderRule(R string) RuleFunc {
 						}
 					}
 				}
-			case *ast.DeferStmt:
-				ast.Inspect(x, func(m ast.Node) bool {
-					if id, ok := m.(*ast.Ident); ok && id.Name == "recover" {
-						recoverInside = true
-					}
-					return true
-				})
 			}
 			return true
 		})
+		recoverInside := deferredRecoverIn(c, bpk, body)
 		okOrder := true
 		missing := ""
 		for i := range order {
@@ -460,6 +453,10 @@ func onceCaptureRule(R string) RuleFunc {
 				if parent != nil && len(parent.Params) > 0 && parent.Signature.Recv() != nil && fv.Name() == parent.Params[0].Name() {
 					ok = true
 				}
+				// a method value (`once.Do(s.compute)`) is a wrapper that binds its receiver only
+				if parent == nil && strings.HasSuffix(f.Name(), "$bound") && len(f.FreeVars) == 1 {
+					ok = true
+				}
 				if !ok {
 					bad = fv.Name()
 				}
@@ -816,6 +813,10 @@ func slashEOFRule(R, sw string, clears []string, tail string) RuleFunc {
 		for _, fn := range clears {
 			chk(fn, first, "the mark is cleared first when the second character arrives", "the mark survives the second character: a complete annotation at the end of the text would be refused")
 		}
+		var tailPkg *packages.Package
+		if td := c.P.FindDecl(tail); td != nil {
+			tailPkg = td.Pkg
+		}
 		chk(tail, func(b *ast.BlockStmt) bool {
 			ok := false
 			for _, st := range b.List {
@@ -823,7 +824,7 @@ func slashEOFRule(R, sw string, clears []string, tail string) RuleFunc {
 					ast.Inspect(ifs.Body, func(n ast.Node) bool {
 						switch n := n.(type) {
 						case *ast.CallExpr:
-							if core.ExprStr(n.Fun) == "panic" {
+							if core.ExprStr(n.Fun) == "panic" || neverReturns(c, core.Callee(tailPkg, n)) {
 								ok = true
 							}
 						case *ast.ReturnStmt:
@@ -931,7 +932,7 @@ func blockCommentEOFRule(R string) RuleFunc {
 				}
 				if hasDisjunct(ifs.Cond, "s.blockCommentOpen") {
 					ast.Inspect(ifs.Body, func(n ast.Node) bool {
-						if call, isC := n.(*ast.CallExpr); isC && core.ExprStr(call.Fun) == "panic" {
+						if call, isC := n.(*ast.CallExpr); isC && (core.ExprStr(call.Fun) == "panic" || neverReturns(c, core.Callee(d.Pkg, call))) {
 							ok = true
 						}
 						return true
@@ -944,4 +945,130 @@ func blockCommentEOFRule(R string) RuleFunc {
 			c.Check(ok, R, "Next:eof", c.P.Pos(d.Decl.Pos()), "Next() refuses the end of the input inside a ### comment", "the end of the input inside a ### comment is accepted")
 		}
 	}
+}
+
+// onceBody resolves the function handed to a once wrapper to the body that does the work: a
+// function literal; a literal that only forwards to one method of the same package (`func() error
+// { return s.doCompile() }`); or a method value (`s.doCompile`).
+func onceBody(c *core.Ctx, pk *packages.Package, arg ast.Expr) (*ast.BlockStmt, *packages.Package) {
+	declOf := func(fun ast.Expr) (*ast.BlockStmt, *packages.Package) {
+		var id *ast.Ident
+		switch x := ast.Unparen(fun).(type) {
+		case *ast.SelectorExpr:
+			id = x.Sel
+		case *ast.Ident:
+			id = x
+		}
+		if id == nil {
+			return nil, nil
+		}
+		o, _ := pk.TypesInfo.Uses[id].(*types.Func)
+		if o == nil {
+			return nil, nil
+		}
+		if d := c.P.FindDecl(core.Rel(o.FullName())); d != nil && d.Decl.Body != nil {
+			return d.Decl.Body, d.Pkg
+		}
+		return nil, nil
+	}
+	switch x := ast.Unparen(arg).(type) {
+	case *ast.FuncLit:
+		// a forwarding literal: one return (or expression) statement that is a call
+		if len(x.Body.List) == 1 {
+			var call *ast.CallExpr
+			switch st := x.Body.List[0].(type) {
+			case *ast.ReturnStmt:
+				if len(st.Results) == 1 {
+					call, _ = st.Results[0].(*ast.CallExpr)
+				}
+			case *ast.ExprStmt:
+				call, _ = st.X.(*ast.CallExpr)
+			}
+			if call != nil {
+				if b, bp := declOf(call.Fun); b != nil && core.InScope(bp.PkgPath) {
+					return b, bp
+				}
+			}
+		}
+		return x.Body, pk
+	default:
+		if b, bp := declOf(arg); b != nil {
+			return b, bp
+		}
+	}
+	return nil, pk
+}
+
+// deferredRecoverIn: does the body defer something that calls recover() itself - a literal with
+// recover() in it, or a named function whose own body calls recover()?
+func deferredRecoverIn(c *core.Ctx, pk *packages.Package, body *ast.BlockStmt) bool {
+	hasRecover := func(b ast.Node) bool {
+		found := false
+		ast.Inspect(b, func(m ast.Node) bool {
+			if _, isLit := m.(*ast.FuncLit); isLit && m != b {
+				return false // recover() only works in the deferred function itself
+			}
+			if call, ok := m.(*ast.CallExpr); ok {
+				if id, ok := call.Fun.(*ast.Ident); ok && id.Name == "recover" {
+					found = true
+				}
+			}
+			return true
+		})
+		return found
+	}
+	ok := false
+	for _, st := range body.List {
+		ds, isD := st.(*ast.DeferStmt)
+		if !isD {
+			continue
+		}
+		if lit, isLit := ds.Call.Fun.(*ast.FuncLit); isLit {
+			if hasRecover(lit) {
+				ok = true
+			}
+			continue
+		}
+		var id *ast.Ident
+		switch x := ds.Call.Fun.(type) {
+		case *ast.Ident:
+			id = x
+		case *ast.SelectorExpr:
+			id = x.Sel
+		}
+		if id == nil {
+			continue
+		}
+		if o, _ := pk.TypesInfo.Uses[id].(*types.Func); o != nil {
+			if d := c.P.FindDecl(core.Rel(o.FullName())); d != nil && d.Decl.Body != nil && hasRecover(d.Decl.Body) {
+				ok = true
+			}
+		}
+	}
+	return ok
+}
+
+// neverReturns: a module function all of whose paths end in a panic (it has no return instruction).
+func neverReturns(c *core.Ctx, o types.Object) bool {
+	f, ok := o.(*types.Func)
+	if !ok || f.Pkg() == nil || !core.InScope(f.Pkg().Path()) {
+		return false
+	}
+	sf := c.P.SSA.FuncValue(f)
+	if sf == nil || sf.Blocks == nil {
+		return false
+	}
+	panics := false
+	for _, b := range sf.Blocks {
+		if len(b.Instrs) == 0 {
+			continue
+		}
+		switch b.Instrs[len(b.Instrs)-1].(type) {
+		case *ssa.Return:
+			return false
+		case *ssa.Panic:
+			panics = true
+		}
+	}
+	return panics
 }
